@@ -111,9 +111,16 @@ impl Weights {
     pub fn for_prop(p: &str) -> Weights {
         let mut w = Weights::base();
         match p {
-            "C02" | "C03" | "C09" => {
+            "C02" | "C03" => {
                 w.matchx = 40;
                 w.reject_bid = 10;
+            }
+            "C09" => {
+                // fee at entry, fee on fills, fee on partial rejects
+                w.matchx = 34;
+                w.reject_bid = 12;
+                w.create_bid = 22;
+                w.perturb_pct = 40;
             }
             "C04" | "C08" => {
                 w.reject_ask = 14;
@@ -526,7 +533,7 @@ impl Gen {
                 }
                 3 => msg_price = self.rng.pick(&["0", "-1", "abc", "", "0.0000000000000000001", "1.23456789", "0.000", "1e2"]).to_string(),
                 4 => msg_base = self.rng.pick(&["other", "", QUOTES[0]]).to_string(),
-                5 => msg_quote = self.rng.pick(&["other", "", BASE]).to_string(),
+                5 => msg_quote = self.rng.pick(&["other", "", BASE, QUOTES[0], QUOTES[1]]).to_string(),
                 6 => sender = self.rng.pick(&["gina", "hank"]).to_string(),
                 7 => {
                     if let Some(c) = funds.get_mut(0) {
@@ -566,7 +573,7 @@ impl Gen {
                 2 => msg_size = if self.rng.pct(50) { size + 1 } else { size.saturating_sub(1) },
                 3 => msg_price = self.rng.pick(&["0", "-1", "abc", "", "0.0000000000000000001", "1.23456789", "2.5"]).to_string(),
                 4 => base = self.rng.pick(&["other", CONVS[0], ""]).to_string(),
-                5 => msg_quote = self.rng.pick(&["other", "", BASE]).to_string(),
+                5 => msg_quote = self.rng.pick(&["other", "", BASE, QUOTES[0], QUOTES[1]]).to_string(),
                 6 => sender = self.rng.pick(&["gina", "hank"]).to_string(),
                 7 => quote_size = if self.rng.pct(50) { total + 1 } else { total.saturating_sub(1) },
                 8 => {
@@ -582,8 +589,13 @@ impl Gen {
                     }
                 }
                 9 => {
+                    // the fee labelled with another denomination: unknown, the base, or the *other*
+                    // supported quote denomination
                     if let Some(c) = fee.as_mut() {
-                        c.denom = "other".into();
+                        let cur = c.denom.clone();
+                        let mut opts: Vec<String> = vec!["other".into(), BASE.into()];
+                        opts.extend(info.supported_quote_denoms.iter().filter(|q| **q != cur).cloned());
+                        c.denom = self.rng.pick(&opts).clone();
                     }
                 }
                 10 => {
@@ -1128,13 +1140,17 @@ impl Gen {
         ];
         let version = if self.rng.pct(if with_v2 { 75 } else { 40 }) {
             self.rng.pick(&["0.16.2", "0.16.3", "0.17.0", "0.18.2", "0.19.0"]).to_string()
+        } else if self.rng.pct(35) {
+            // just below the supported minimum (and inside the weaker gate of the ask migration)
+            self.rng.pick(&["0.15.0", "0.16.1", "0.16.0", "0.15.5", "0.14.9"]).to_string()
         } else {
             self.rng.pick(&versions).to_string()
         };
         let prec = info.price_precision.u128() as u32;
         let inc = info.size_increment.u128();
         let mut asks = vec![];
-        for _ in 0..self.rng.below(4) {
+        let na = if self.rng.pct(10) { 0 } else { self.rng.below(4) };
+        for _ in 0..na {
             let k = self.legacy_key();
             // a convertible ask is denominated in a convertible denomination other than the base
             let real_convs: Vec<String> =
@@ -1169,7 +1185,8 @@ impl Gen {
         }
         let mut bids3 = vec![];
         let mut bids2 = vec![];
-        let nb = self.rng.below(5) + if with_v2 { 1 } else { 0 };
+        // now and then one side of the book (or both) is empty when the migration arrives
+        let nb = if self.rng.pct(15) { 0 } else { self.rng.below(5) + if with_v2 { 1 } else { 0 } };
         for _ in 0..nb {
             let k = self.legacy_key();
             let price = self.price(prec);
